@@ -127,3 +127,27 @@ Proof. vm_compute. reflexivity. Qed.
 Example C14_ex_probe_bad :
   model_probe version_is_compatible (fun _ => false) [(86, [110], render 2 2 0)] [Some [([110], render 2 3 0)]] false = None.
 Proof. vm_compute. reflexivity. Qed.
+
+(* ==== metadata gates from source (unit meta) ==== *)
+(* model.c should_enable, GENERATED from the C source (Gen/Meta_gen.v, unit meta; version_parse is VersionDefs.version_parse and
+   version_is_compatible the generated Gen/Version_gen.v, both called, not re-translated), on a thread whose metadata is the tree
+   fs, is the per-thread step VersionDefs.should_enable of the enable rule on the "ovni.require" entries of that tree
+   (RtMetaDefs.to_thread_req): -1 = PErr, 0 = POff, 1 = POn.  Hypothesis: the require object has no repeated name (json_parse
+   refuses such a file; parson looks up the FIRST member of a name, whatever its type). *)
+From OV Require Emu.MetaPre Gen.Meta_gen Proofs.MetaGenProofs Rt.RtMetaDefs.
+Theorem C14_should_enable_from_source : forall name have fs st,
+  MetaPre.th_meta st = Some fs ->
+  (forall r, RtMetaDefs.pget fs [RtMetaDefs.k_ovni; RtMetaDefs.k_require] = Some (RtMetaDefs.jobj r) -> RtMetaDefs.nodup_keys (map fst r) = true) ->
+  Meta_gen.should_enable (MetaPre.mkE (Some name) version_is_compatible) st have tt tt =
+  MetaGenProofs.probe_code (should_enable version_is_compatible have name (RtMetaDefs.to_thread_req (RtMetaDefs.jobj fs))).
+Proof. exact MetaGenProofs.should_enable_from_source_gen. Qed.
+Print Assumptions C14_should_enable_from_source.
+
+Example C14_ex_should_enable_from_source :
+  let st := MetaPre.mkM (Some MetaGenProofs.ex_fs) 1 1 4 (Some MetaGenProofs.ex_fs) in
+  Meta_gen.should_enable (MetaGenProofs.ex_sx [110; 111; 115; 118]) st [2; 5; 1] tt tt = 1 /\
+  Meta_gen.should_enable (MetaGenProofs.ex_sx [110; 111; 115; 118]) st [2; 4; 0] tt tt = -1 /\
+  Meta_gen.should_enable (MetaGenProofs.ex_sx [110; 111; 115; 118]) st [3; 0; 0] tt tt = -1 /\
+  Meta_gen.should_enable (MetaGenProofs.ex_sx [116; 97; 109; 112; 105]) st [1; 0; 0] tt tt = 0.
+Proof. repeat split; vm_compute; reflexivity. Qed.
+(* ==== end of block (unit meta) ==== *)
